@@ -156,3 +156,431 @@ theorem C09_generation_failure_blocks (c : Cfg) (req : List Name) (o : Opts) (fu
   exact ⟨_, out, hs, ho, hpt, hu⟩
 
 end Pysmi.Compile
+namespace Pysmi.Compile
+open Pysmi
+
+/-! ### a requested module that no source has, and no file names, stays failed until discovery ends -/
+
+/-- no file any source serves, under whatever name it is asked for, holds a module that calls itself `n` -/
+def NoModuleNamed (c : Cfg) (n : Name) : Prop :=
+  ∀ src ∈ c.sources, ∀ m alias mtime text ts, src m = .ok alias mtime text → c.parse text = .trees ts →
+    ∀ t ∈ ts, ∀ name imps, c.sym t = .ok name imps → name ≠ n
+
+/-- the part of the state that concerns `n` -/
+structure KeepsFailed (n : Name) (s : St) : Prop where
+  failed : s.failed.contains n = true
+  notParsed : n ∉ s.parsed.keys
+
+theorem kf_log {n : Name} {s : St} (k : Call) (h : KeepsFailed n s) : KeepsFailed n (s.log k) := ⟨h.failed, h.notParsed⟩
+
+theorem kf_failSource {n : Name} {s : St} (m : Name) (e : Err) (h : KeepsFailed n s) : KeepsFailed n (failSource s m e) :=
+  ⟨contains_set_of _ _ _ _ h.failed, h.notParsed⟩
+
+theorem kf_clearStale {n : Name} {s : St} (k : Name) (hk : k ≠ n) (h : KeepsFailed n s) : KeepsFailed n (clearStale s k) := by
+  unfold clearStale
+  split
+  · exact ⟨by simp only; rw [contains_del_iff _ _ _ hk]; exact h.failed, h.notParsed⟩
+  · exact h
+
+theorem kf_registerTree {n : Name} {s : St} (req : List Name) (m alias : Name) (mtime : Int) (tree : Nat) (name : Name)
+    (imports : List Name) (hm : m ≠ n) (hname : name ≠ n) (h : KeepsFailed n s) :
+    KeepsFailed n (registerTree req s m alias mtime tree name imports) := by
+  unfold registerTree
+  have h1 : KeepsFailed n ({ s with parsed := s.parsed.set name (alias, mtime, tree) } : St) :=
+    ⟨h.failed, by
+      intro hmem
+      rcases (AList.mem_keys_set _ _ _ _).mp hmem with e | e
+      · exact hname e.symm
+      · exact h.notParsed e⟩
+  have h2 := kf_clearStale name hname (kf_clearStale m hm h1)
+  simp only
+  split
+  · exact ⟨h2.failed, h2.notParsed⟩
+  · exact ⟨h2.failed, h2.notParsed⟩
+
+theorem kf_symTrees (c : Cfg) (req : List Name) (n m alias : Name) (mtime : Int) (hm : m ≠ n) :
+    ∀ (ts : List Nat) (s : St), (∀ t ∈ ts, ∀ name imps, c.sym t = .ok name imps → name ≠ n) → KeepsFailed n s →
+      KeepsFailed n (symTrees c req m alias mtime ts s).1 := by
+  intro ts
+  induction ts with
+  | nil => intro s _ h; exact h
+  | cons t ts ih =>
+    intro s hts h
+    unfold symTrees
+    simp only
+    split
+    · exact kf_log _ h
+    · rename_i name imports hs
+      exact ih _ (fun t' ht' => hts t' (List.mem_cons_of_mem _ ht'))
+        (kf_registerTree req m alias mtime t name imports hm (hts t (by simp) name imports hs) (kf_log _ h))
+
+theorem kf_trySources (c : Cfg) (req : List Name) (n m : Name) (hm : m ≠ n) (hno : NoModuleNamed c n) :
+    ∀ (srcs : List (Name → SrcAns)) (i : Nat) (s : St), (∀ src ∈ srcs, src ∈ c.sources) → KeepsFailed n s →
+      KeepsFailed n (trySources c req m srcs i s) := by
+  intro srcs
+  induction srcs with
+  | nil =>
+    intro i s _ h
+    unfold trySources
+    simp only
+    split
+    · split
+      · exact h
+      · exact ⟨h.failed, h.notParsed⟩
+    · split
+      · exact ⟨contains_set_of _ _ _ _ h.failed, h.notParsed⟩
+      · exact ⟨contains_set_of _ _ _ _ h.failed, h.notParsed⟩
+  | cons src rest ih =>
+    intro i s hsub h
+    have hrest : ∀ x ∈ rest, x ∈ c.sources := fun x hx => hsub x (List.mem_cons_of_mem _ hx)
+    unfold trySources
+    simp only
+    have h1 := kf_log (n := n) (.get i m) h
+    split
+    · exact ih _ _ hrest h1
+    · exact ih _ _ hrest (kf_failSource _ _ h1)
+    · rename_i alias mtime text hsrc
+      have h2 := kf_log (n := n) (.parse text) h1
+      split
+      · exact ih _ _ hrest (kf_failSource _ _ h2)
+      · exact ih _ _ hrest (kf_failSource _ _ h2)
+      · rename_i ts _ hparse
+        have hts : ∀ t ∈ ts, ∀ name imps, c.sym t = .ok name imps → name ≠ n :=
+          hno src (hsub src (by simp)) m alias mtime text ts hsrc hparse
+        have h3 := kf_symTrees c req n m alias mtime hm ts _ hts h2
+        split
+        · rename_i hst
+          rw [hst] at h3
+          exact ih _ _ hrest (kf_failSource _ _ h3)
+        · rename_i hst
+          rw [hst] at h3
+          exact h3
+
+/-- asking every source for a module none of them has records it as failed (and parses nothing) -/
+theorem trySources_all_notFound (c : Cfg) (req : List Name) (n : Name) :
+    ∀ (srcs : List (Name → SrcAns)) (i : Nat) (s : St), (∀ src ∈ srcs, src n = .notFound) → n ∉ s.parsed.keys →
+      KeepsFailed n (trySources c req n srcs i s) := by
+  intro srcs
+  induction srcs with
+  | nil =>
+    intro i s _ hp
+    unfold trySources
+    simp only
+    split
+    · rename_i hf
+      split
+      · exact ⟨hf, hp⟩
+      · exact ⟨hf, hp⟩
+    · split
+      · exact ⟨contains_set_self _ _ _, hp⟩
+      · exact ⟨contains_set_self _ _ _, hp⟩
+  | cons src rest ih =>
+    intro i s hnf hp
+    unfold trySources
+    simp only [hnf src (by simp)]
+    exact ih _ _ (fun x hx => hnf x (List.mem_cons_of_mem _ hx)) hp
+
+end Pysmi.Compile
+
+namespace Pysmi.Compile
+open Pysmi
+
+/-! the same for the two facts that hold before `n` itself is looked up: nothing parsed under that name, still queued -/
+
+theorem np_clearStale {n : Name} {s : St} (k : Name) (h : n ∉ s.parsed.keys) : n ∉ (clearStale s k).parsed.keys := by
+  unfold clearStale; split <;> exact h
+
+theorem np_registerTree {n : Name} {s : St} (req : List Name) (m alias : Name) (mtime : Int) (tree : Nat) (name : Name)
+    (imports : List Name) (hname : name ≠ n) (h : n ∉ s.parsed.keys) :
+    n ∉ (registerTree req s m alias mtime tree name imports).parsed.keys := by
+  unfold registerTree
+  have h1 : n ∉ ({ s with parsed := s.parsed.set name (alias, mtime, tree) } : St).parsed.keys := by
+    intro hmem
+    rcases (AList.mem_keys_set _ _ _ _).mp hmem with e | e
+    · exact hname e.symm
+    · exact h e
+  have h2 := np_clearStale name (np_clearStale m h1)
+  simp only
+  split <;> exact h2
+
+theorem np_symTrees (c : Cfg) (req : List Name) (n m alias : Name) (mtime : Int) :
+    ∀ (ts : List Nat) (s : St), (∀ t ∈ ts, ∀ name imps, c.sym t = .ok name imps → name ≠ n) → n ∉ s.parsed.keys →
+      n ∉ (symTrees c req m alias mtime ts s).1.parsed.keys := by
+  intro ts
+  induction ts with
+  | nil => intro s _ h; exact h
+  | cons t ts ih =>
+    intro s hts h
+    unfold symTrees
+    simp only
+    split
+    · exact h
+    · rename_i name imports hs
+      exact ih _ (fun t' ht' => hts t' (List.mem_cons_of_mem _ ht'))
+        (np_registerTree req m alias mtime t name imports (hts t (by simp) name imports hs) h)
+
+theorem np_failSource {n : Name} {s : St} (m : Name) (e : Err) (h : n ∉ s.parsed.keys) : n ∉ (failSource s m e).parsed.keys := h
+
+theorem np_trySources (c : Cfg) (req : List Name) (n m : Name) (hno : NoModuleNamed c n) :
+    ∀ (srcs : List (Name → SrcAns)) (i : Nat) (s : St), (∀ src ∈ srcs, src ∈ c.sources) → n ∉ s.parsed.keys →
+      n ∉ (trySources c req m srcs i s).parsed.keys := by
+  intro srcs
+  induction srcs with
+  | nil =>
+    intro i s _ h
+    unfold trySources
+    simp only
+    split <;> split <;> exact h
+  | cons src rest ih =>
+    intro i s hsub h
+    have hrest : ∀ x ∈ rest, x ∈ c.sources := fun x hx => hsub x (List.mem_cons_of_mem _ hx)
+    unfold trySources
+    simp only
+    split
+    · exact ih _ _ hrest h
+    · exact ih _ _ hrest h
+    · rename_i alias mtime text hsrc
+      split
+      · exact ih _ _ hrest h
+      · exact ih _ _ hrest h
+      · rename_i ts _ hparse
+        have hts := hno src (hsub src (by simp)) m alias mtime text ts hsrc hparse
+        have h3 := np_symTrees c req n m alias mtime ts ((s.log (.get i m)).log (.parse text)) hts h
+        split
+        · rename_i hst
+          rw [hst] at h3
+          exact ih _ _ hrest h3
+        · rename_i hst
+          rw [hst] at h3
+          exact h3
+
+/-- the work list only grows while a name is being looked up; the list of names already looked up does not change -/
+theorem queue_registerTree {s : St} (req : List Name) (m alias : Name) (mtime : Int) (tree : Nat) (name : Name)
+    (imports : List Name) (x : Name) (h : x ∈ s.queue) :
+    x ∈ (registerTree req s m alias mtime tree name imports).queue ∧
+    (registerTree req s m alias mtime tree name imports).fetched = s.fetched := by
+  unfold registerTree clearStale
+  simp only
+  split <;> split <;> split <;> simp [h]
+
+theorem queue_symTrees (c : Cfg) (req : List Name) (m alias : Name) (mtime : Int) (x : Name) :
+    ∀ (ts : List Nat) (s : St), x ∈ s.queue → x ∈ (symTrees c req m alias mtime ts s).1.queue := by
+  intro ts
+  induction ts with
+  | nil => intro s h; exact h
+  | cons t ts ih =>
+    intro s h
+    unfold symTrees
+    simp only
+    split
+    · exact h
+    · exact ih _ (queue_registerTree (s := s.log (.sym t)) req m alias mtime t _ _ x h).1
+
+theorem fetched_symTrees (c : Cfg) (req : List Name) (m alias : Name) (mtime : Int) :
+    ∀ (ts : List Nat) (s : St), (symTrees c req m alias mtime ts s).1.fetched = s.fetched := by
+  intro ts
+  induction ts with
+  | nil => intro s; rfl
+  | cons t ts ih =>
+    intro s
+    unfold symTrees
+    simp only
+    split
+    · rfl
+    · rw [ih]
+      unfold registerTree clearStale
+      simp only
+      split <;> split <;> split <;> rfl
+
+end Pysmi.Compile
+
+namespace Pysmi.Compile
+open Pysmi
+
+theorem queue_trySources (c : Cfg) (req : List Name) (m x : Name) :
+    ∀ (srcs : List (Name → SrcAns)) (i : Nat) (s : St), x ∈ s.queue → x ∈ (trySources c req m srcs i s).queue := by
+  intro srcs
+  induction srcs with
+  | nil =>
+    intro i s h
+    unfold trySources
+    simp only
+    split <;> split <;> exact h
+  | cons src rest ih =>
+    intro i s h
+    unfold trySources
+    simp only
+    split
+    · exact ih _ _ h
+    · exact ih _ _ h
+    · rename_i alias mtime text _
+      split
+      · exact ih _ _ h
+      · exact ih _ _ h
+      · rename_i ts _ _
+        have h3 := queue_symTrees c req m alias mtime x ts ((s.log (.get i m)).log (.parse text)) h
+        split
+        · rename_i hst
+          rw [hst] at h3
+          exact ih _ _ h3
+        · rename_i hst
+          rw [hst] at h3
+          exact h3
+
+theorem fetched_trySources (c : Cfg) (req : List Name) (m : Name) :
+    ∀ (srcs : List (Name → SrcAns)) (i : Nat) (s : St), (trySources c req m srcs i s).fetched = s.fetched := by
+  intro srcs
+  induction srcs with
+  | nil =>
+    intro i s
+    unfold trySources
+    simp only
+    split <;> split <;> rfl
+  | cons src rest ih =>
+    intro i s
+    unfold trySources
+    simp only
+    split
+    · rw [ih]; rfl
+    · rw [ih]; rfl
+    · rename_i alias mtime text _
+      split
+      · rw [ih]; rfl
+      · rw [ih]; rfl
+      · rename_i ts _ _
+        have h3 := fetched_symTrees c req m alias mtime ts ((s.log (.get i m)).log (.parse text))
+        split
+        · rename_i hst
+          rw [hst] at h3
+          rw [ih]; exact h3
+        · rename_i hst
+          rw [hst] at h3
+          exact h3
+
+/-- what holds of `n` in every state of the discovery loop -/
+structure Pending (n : Name) (s : St) : Prop where
+  queuedOrFailed : n ∈ s.queue ∨ s.failed.contains n = true
+  notParsed : n ∉ s.parsed.keys
+  fetchedFailed : n ∈ s.fetched → s.failed.contains n = true
+
+theorem pending_discoverStep (c : Cfg) (req : List Name) (n : Name) (hnf : ∀ src ∈ c.sources, src n = .notFound)
+    (hno : NoModuleNamed c n) (m : Name) (q : List Name) (s : St) (hq : s.queue = m :: q) (h : Pending n s) :
+    Pending n (discoverStep c req m { s with queue := q }) := by
+  have hnp : n ∉ ({ s with queue := q } : St).parsed.keys := h.notParsed
+  by_cases hm : m = n
+  · subst hm
+    unfold discoverStep
+    split
+    · rename_i hp
+      exfalso
+      have : ({ s with queue := q } : St).parsed.get? m ≠ none := by
+        intro hn; simp [AList.contains, hn] at hp
+      exact this ((AList.get?_eq_none_iff _ _).mpr hnp)
+    · split
+      · rename_i hf
+        exact ⟨Or.inr hf, hnp, fun _ => hf⟩
+      · split
+        · rename_i hf hfe
+          exact absurd (h.fetchedFailed hfe) (by simpa using hf)
+        · have k := trySources_all_notFound c req m c.sources 0 { s with queue := q, fetched := m :: s.fetched } hnf hnp
+          exact ⟨Or.inr k.failed, k.notParsed, fun _ => k.failed⟩
+  · have hqn : n ∈ q ∨ s.failed.contains n = true := by
+      rcases h.queuedOrFailed with h1 | h1
+      · rw [hq] at h1
+        rcases List.mem_cons.mp h1 with h2 | h2
+        · exact absurd h2.symm hm
+        · exact Or.inl h2
+      · exact Or.inr h1
+    unfold discoverStep
+    split
+    · exact ⟨hqn, hnp, h.fetchedFailed⟩
+    · split
+      · exact ⟨hqn, hnp, h.fetchedFailed⟩
+      · split
+        · exact ⟨hqn, hnp, h.fetchedFailed⟩
+        · -- a real lookup of another name
+          have hsub : ∀ src ∈ c.sources, src ∈ c.sources := fun _ hx => hx
+          have hnp' := np_trySources c req n m hno c.sources 0 { s with queue := q, fetched := m :: s.fetched } hsub hnp
+          have hfe := fetched_trySources c req m c.sources 0 { s with queue := q, fetched := m :: s.fetched }
+          refine ⟨?_, hnp', ?_⟩
+          · rcases hqn with h1 | h1
+            · exact Or.inl (queue_trySources c req m n c.sources 0 { s with queue := q, fetched := m :: s.fetched } h1)
+            · exact Or.inr (kf_trySources c req n m hm hno c.sources 0 { s with queue := q, fetched := m :: s.fetched } hsub ⟨h1, hnp⟩).failed
+          · intro hf
+            rw [hfe] at hf
+            simp only at hf
+            rcases List.mem_cons.mp hf with h2 | h2
+            · exact absurd h2.symm hm
+            · have := h.fetchedFailed h2
+              exact (kf_trySources c req n m hm hno c.sources 0 { s with queue := q, fetched := m :: s.fetched } hsub ⟨this, hnp⟩).failed
+
+theorem pending_discover (c : Cfg) (req : List Name) (n : Name) (hnf : ∀ src ∈ c.sources, src n = .notFound)
+    (hno : NoModuleNamed c n) (fuel : Nat) (s s' : St) (h : Pending n s) (hd : discover c req fuel s = some s') :
+    s'.failed.contains n = true := by
+  induction fuel generalizing s with
+  | zero => simp [discover] at hd
+  | succ fuel ih =>
+    unfold discover at hd
+    split at hd
+    · rename_i hq
+      injection hd with hd
+      rw [← hd]
+      rcases h.queuedOrFailed with h1 | h1
+      · rw [hq] at h1; cases h1
+      · exact h1
+    · rename_i m q hq
+      exact ih _ (pending_discoverStep c req n hnf hno m q s hq h) hd
+
+/-- **C09_missing_module_blocks**: stated on the inputs alone - a requested module that no source has, that no file of any
+source contains under whatever name, and that no borrower delivers, with errors not ignored: the writer is never called and
+every module that was built is reported `unprocessed`, whatever else the request names, whatever the import graph and the
+outcome of every other call. -/
+theorem C09_missing_module_blocks (c : Cfg) (req : List Name) (o : Opts) (fuel : Nat) (s0 : St) (n : Name)
+    (hd : discover c req fuel { queue := req } = some s0) (hn : n ∈ req)
+    (hnf : ∀ src ∈ c.sources, src n = .notFound) (hno : NoModuleNamed c n)
+    (hb : (borrowLoop n o.genTexts c.borrowers 0).1 = none) (hi : o.ignoreErrors = false) :
+    ∃ s out, beforeGate c req o fuel = some s ∧ run c req o fuel = some out ∧ (∀ x ∈ out.trace, x.isPut = false) ∧
+      ∀ m ∈ s.built.keys, out.processed.get? m = some { st := .unprocessed } := by
+  have h0 : Pending n ({ queue := req } : St) := ⟨Or.inl hn, by simp [AList.keys], fun h => by cases h⟩
+  exact C09_unrepaired_failure_blocks c req o fuel s0 n hd (pending_discover c req n hnf hno fuel _ s0 h0 hd) hb hi
+
+end Pysmi.Compile
+
+namespace Pysmi.Compile
+open Pysmi
+
+/-- non-vacuity: module 1 is there and imports 2; 2 is requested too, no source has it, no file contains it -/
+def missCfg : Cfg where
+  sources := [fun n => if n = 1 then .ok 1 0 10 else .notFound]
+  parse := fun t => .trees [t]
+  sym := fun t => if t = 10 then .ok 1 [2] else .error
+  gen := fun t _ => .ok (t + 1)
+  searchers := []
+  borrowers := []
+  put := fun _ _ _ => true
+
+theorem missCfg_hyps : (∀ src ∈ missCfg.sources, src 2 = .notFound) ∧ NoModuleNamed missCfg 2 := by
+  constructor
+  · intro src hs
+    simp only [missCfg, List.mem_singleton] at hs
+    subst hs; rfl
+  · intro src hsrc m alias mtime text ts hs hp t ht name imps hy
+    simp only [missCfg, List.mem_singleton] at hsrc
+    subst hsrc
+    simp only [missCfg] at hp hy
+    injection hp with hp
+    subst hp
+    simp only [List.mem_singleton] at ht
+    subst ht
+    by_cases h1 : m = 1
+    · subst h1
+      simp at hs
+      obtain ⟨_, _, ht⟩ := hs; subst ht
+      simp at hy
+      intro h; rw [← hy.1] at h; cases h
+    · simp [h1] at hs
+
+example : ((run missCfg [1, 2] {} 10).map fun out => (out.processed.map fun e => (e.1, e.2.st), out.trace.filter Call.isPut)) =
+    some ([(2, .missing), (1, .unprocessed)], []) := by decide +kernel
+
+end Pysmi.Compile
